@@ -419,7 +419,7 @@ class WGen:
         self.toks()
         self.step("count", 1)
         kind = r.choice(["good", "lookalike", "lookalike-only", "young", "unconfirmed", "foreign-sender", "attest-bad", "attest-good",
-                         "orphan-race", "reinclude", "malformed", "unknown-tx", "multi", "multi", "multi"])
+                         "orphan-race", "reinclude", "malformed", "unknown-tx", "multi", "multi", "multi", "other-index"])
         if kind == "multi":
             return self.reobs_multi()
         ts = -5000
@@ -448,6 +448,9 @@ class WGen:
             self.emit(b, ok=False, tb=r.random() < 0.5, tx=target["tx"])
         if kind == "unknown-tx":
             target = self.good(b, cl=0)
+        if kind == "other-index":        # the core contract emits, in this tx, an event that is not a WormholeMessage
+            target = self.good(b, cl=0) if r.random() < 0.5 else self.emit(b, ei=1)
+            self.emit(b, ei=1, tx=target["tx"])
         self.step(None)
         self.raise_height(r.choice([1, 2, 6]))
         if kind == "reinclude":
@@ -635,9 +638,45 @@ class WGen:
             self.raise_height(r.choice([2, 3]))
         return finish_scenario(self.sc, "gen", "hold")
 
+    def apifail_reobs(self, route=None, settle=None):
+        """A one-shot node API error on ONE route of the re-observation path, aimed at the re-observer: the message was
+        emitted before the watcher started, so the polling path is idle and the armed failure can only hit the re-observer's
+        own call (tx status, events by tx id, block header, main-chain, chain-info; the metadata multi-call through an
+        HTTP error).  The request is abandoned, the watcher stays up, a repeated request is served normally."""
+        r = self.r
+        route = route or r.choice(["status", "events-tx", "headers", "is-main", "chain-info", "multicall"])
+        self.new(page=2)
+        self.op(op="tok", id="t1", shape="m1")
+        self.op(op="tok", id="t6", shape="fail")
+        b = self.block(ts=-5000)
+        if route == "multicall":
+            e = self.good(b, kind="attest", tok="t6", claim="m1", cl=0)
+        else:
+            e = self.good(b, cl=r.choice([0, 1]))
+        e2 = self.good(b, kind="attest", tok="t1", claim="m1", cl=0)
+        self.raise_height(3)
+        self.step("count", 1)
+        if route != "multicall":
+            self.op(op="failnext", route=route)
+        self.op(op="req", tx=e["tx"])
+        self.step(None)
+        self.op(op="req", tx=e["tx"])            # again, without a failure
+        self.op(op="req", tx=e2["tx"])
+        self.step(None)
+        nb = self.block(ts=-5000)                # and the polling path is still alive
+        self.good(nb, cl=0)
+        self.step(None)
+        self.raise_height(1)
+        sc = finish_scenario(self.sc, "gen", "apifail:reobs-" + route)
+        if sc is not None and settle:
+            sc["settleMs"] = settle
+        return sc
+
     def apifail(self):
         """C08 under node API errors at any call: the round / batch is abandoned, Run may end and is restarted."""
         r = self.r
+        if r.random() < 0.5:
+            return self.apifail_reobs()
         self.new()
         self.toks()
         self.old_events()
@@ -1089,7 +1128,26 @@ def pinned(prop):
             raise vlib.Broken("pinned scenario %s violates the time margins" % name)
         res.append(sc)
 
+    # a one-shot API error on every route of the re-observation path (both plans)
+    for route in ("status", "events-tx", "headers", "is-main", "chain-info", "multicall"):
+        g = WGen(random.Random("apifail-reobs-" + route))
+        sc = g.apifail_reobs(route=route, settle=400)
+        if sc is None:
+            raise vlib.Broken("pinned scenario apifail-reobs-%s violates the time margins" % route)
+        sc["src"], sc["family"] = "pinned", "pinned:apifail-reobs-" + route
+        res.append(sc)
     if prop == "C08":
+        # the core contract emits another event index in the re-observed tx: only WormholeMessage events count
+        g = start()
+        b = g.block(ts=-5000)
+        e = g.good(b, cl=0)
+        g.emit(b, ei=1, tx=e["tx"])
+        b2 = g.block(ts=-5000)
+        x = g.emit(b2, ei=1)
+        g.step(None); g.raise_height(2)
+        g.step(None); g.op(op="req", tx=e["tx"])
+        g.step(None); g.op(op="req", tx=x["tx"])
+        done(g, "reobs-other-event-index")
         # a look-alike event of another contract in the tx of a token-bridge message, then a re-observation request
         g = start()
         b = g.block(ts=-5000)
